@@ -248,6 +248,38 @@ theorem query_cfg_is_first_callers (ops : List Op) :
     ∀ q ∈ (run ops).pending, ∃ c0 rest, q.senders = c0 :: rest ∧ (c0, q.key, q.cfg) ∈ (run ops).asked :=
   (inv_run ops).firstCfg
 
+/-! ## Named holders (`expected_holders`) do not lower the quorum
+
+`Cfg.expected` is part of the cfg every theorem above quantifies over; `Backed` asks for `getQuorumValue cfg.quorum`
+distinct peers whatever the caller named. (The number of copies required is `get_quorum_value(&cfg.get_quorum)` at all
+four sites of kad.rs; the translator refuses any other expression, and the differential run names holders — answering
+and silent ones, fewer and more than the quorum — in the `get` lines.) -/
+
+/-- the number of copies required does not depend on the holders the caller names -/
+theorem quorum_ignores_expected_holders (cfg : Cfg) (e : List Nat) :
+    quorumOf { cfg with expected := e } = quorumOf cfg ∧
+    ∀ c, targetMatch { cfg with expected := e } c = targetMatch cfg c :=
+  ⟨rfl, fun _ => rfl⟩
+
+/-- **`ok` needs the full quorum whoever was named**: with named holders `e` an `ok` is still backed by
+`getQuorumValue quorum` pairwise distinct peers (instance of `ok_has_quorum` spelling the field out). -/
+theorem ok_has_quorum_with_named_holders (ops : List Op) (op : Op) (caller : Nat) (c : Content)
+    (h : (caller, Outcome.ok c) ∈ (step (run ops) op).2.deliveries) :
+    ∃ q ∈ (run ops).pending, caller ∈ q.senders ∧
+      ((∃ ps : List Nat, ps.Nodup ∧ getQuorumValue q.cfg.quorum ≤ ps.length ∧
+          ∀ p ∈ ps, (q.qid, p, c) ∈ (step (run ops) op).1.returned) ∨ Merged q op c) := by
+  obtain ⟨q, hq, hc, hb⟩ := ok_has_quorum ops op caller c h
+  refine ⟨q, hq, hc, ?_⟩
+  rcases hb with ⟨ps, h1, h2, h3, _⟩ | hm
+  · exact Or.inl ⟨ps, h1, h2, h3⟩
+  · exact Or.inr hm
+
+-- Majority with three named holders: two distinct peers are not enough, neither at once nor at a timeout
+example : (step (run [.get 0 0 { quorum := .majority, target := none, isReg := false, expected := [1, 2, 3] },
+      .found 0 1 (.hdr .chunk 0) none]) (.found 0 2 (.hdr .chunk 0) none)).2.deliveries = [] := by decide
+example : (step (run [.get 0 0 { quorum := .majority, target := none, isReg := false, expected := [1, 2] },
+      .found 0 1 (.hdr .chunk 0) none]) (.timeout 0)).2.deliveries = [(0, .timeout)] := by decide
+
 /-! ## Known finding K-d: a joiner inherits the first caller's cfg -/
 
 /-- The property at full strength: an `ok` is backed by a quorum *under the receiving caller's own cfg*
@@ -1569,6 +1601,8 @@ end SafeNet.Props.C05
 #print axioms SafeNet.Props.C05.not_mergeDeterministic_unordered
 #print axioms SafeNet.Props.C05.not_mergeDeterministic_unordered_reg
 #print axioms SafeNet.Props.C05.merge_order_independent_partial
+#print axioms SafeNet.Props.C05.quorum_ignores_expected_holders
+#print axioms SafeNet.Props.C05.ok_has_quorum_with_named_holders
 #print axioms SafeNet.Props.C05.timeout_discards_versions_witness
 #print axioms SafeNet.Props.C05.not_splitReturnsAllOrMerge
 #print axioms SafeNet.Props.C05.split_returns_all_or_merge_partial
